@@ -20,7 +20,7 @@ import socket
 import threading
 import time as _time
 
-from ..core import MachineryError, emit_behaviours, model_check, pool_map, run_tlc, sany, validate_traces
+from ..core import MachineryError, model_check, pool_map, run_tlc, sany, validate_traces
 from ..env import LoggerStub, boot
 
 META = {
@@ -361,7 +361,7 @@ class MsgWorld:
             self.ident_of[wi] = tuple(ident)
             c.active_requests[(ra, wi)] = [({'reply': 'read', 'changed': 'change'}[ra], wi, None), _RecEvent(self), None]
         elif act == 'tick':
-            self.clock.tick = st['now'] if 'now' in st else st['exp']['now']
+            self.clock.tick = st['now'] if 'now' in st else st['exp']['n']
         elif act in ('describe', 'descr'):
             self.describe(st['desc'])
         else:
@@ -384,27 +384,21 @@ class MsgWorld:
 
 # ------------------------------------------------------------------ spec -> code
 
-def _entry(e):
-    return [e['val'], e['ts'], e['err']['cls'], e['err']['text']]
-
-
 def _exp_obs(st):
     """the state TLC printed after the step, in the shape MsgWorld.observe() produces"""
     e = st['exp']
-    last = e['last']
-    o = {'cache': sorted([c['m'], c['p']] + _entry(c['e']) for c in e['cache']),
-         'cbs': sorted(([list(c['level']), c['kind'], c['beh']] for c in e['cbs']), key=json.dumps),
-         'waiting': sorted([w[0], list(w[1])] for w in e['waiting'])}
+    last = e['l']
+    o = {'cache': sorted(e['c']),
+         'cbs': sorted(e['b'], key=json.dumps),
+         'waiting': sorted([w[0], list(w[1])] for w in e['w'])}
     if last['kind'] == 'recv':
-        o['calls'] = sorted(([list(c['level']), c['kind'], c['beh']] + list(last['key']) + _entry(last['view'])
-                             for c in last['calls']), key=json.dumps)
+        o['calls'] = sorted((c + list(last['key']) + last['view'] for c in last['calls']), key=json.dumps)
         o['released'] = last['released']
         if last['released'] and last['handled']:
             o['seen'] = o['cache']
     elif last['kind'] == 'register':
-        cache = {(c['m'], c['p']): _entry(c['e']) for c in e['cache']}
-        o['calls'] = sorted(([list(last['cb']['level']), last['cb']['kind'], last['cb']['beh']] + list(k) + cache[tuple(k)]
-                             for k in last['ikeys']), key=json.dumps)
+        cache = {(c[0], c[1]): c[2:] for c in e['c']}
+        o['calls'] = sorted((last['cb'] + list(k) + cache[tuple(k)] for k in last['ikeys']), key=json.dumps)
     return o
 
 
@@ -908,18 +902,31 @@ def _e2e_batch(arg):
 
 # ------------------------------------------------------------------ check
 
+def _printed(out, tag='BEH'):
+    """PrintT(<<tag, ToJson(x)>>) lines -> objects (TLA+ string escapes are a subset of JSON's)"""
+    pat = '<<"%s", "' % tag
+    return [json.loads(json.loads(line[len(pat) - 1:-2])) for line in out.splitlines()
+            if line.startswith(pat) and line.endswith('">>')]
+
+
 def _behaviours(chk, quick):
     cfg = 'Gen_ClientCache_quick.cfg' if quick else 'Gen_ClientCache_thorough.cfg'
-    r, behs = emit_behaviours('Gen_ClientCache', cfg, maximal_only=False, timeout=1200)
+    r = run_tlc('Gen_ClientCache', cfg, workers=1, timeout=1200)
+    if r.violated or not r.ok:
+        raise MachineryError('behaviour emission Gen_ClientCache/%s failed: %s\n%s' % (cfg, r.violated or r.error, r.out[-1500:]))
     chk.add_tlc(r)
+    behs = _printed(r.out)
     # deeper behaviours sampled by TLC's simulator from the same generation spec
-    n, depth, scfg = (1500, 10, 'Gen_ClientCache_sim_quick.cfg') if quick else (30000, 14, 'Gen_ClientCache_sim_thorough.cfg')
-    rs = run_tlc('Gen_ClientCache', scfg, workers=1, timeout=600, simulate='num=%d' % n,
+    n, depth, scfg = (30, 10, 'Gen_ClientCache_sim_quick.cfg') if quick else (1500, 14, 'Gen_ClientCache_sim_thorough.cfg')
+    rs = run_tlc('Gen_ClientCache', scfg, workers=1, timeout=900, simulate='num=%d' % n,
                  depth=depth + 1, seed=chk.seed + 1, deadlock=False)
-    if rs.violated or rs.rc not in (0,):
+    if rs.violated or rs.rc != 0:
         raise MachineryError('simulation of Gen_ClientCache failed: %s\n%s' % (rs.violated or rs.error, rs.out[-1500:]))
-    sim = rs.printed('BEH')
+    sim = _printed(rs.out)
+    chk.notes['generated_behaviours'] = len(behs)
     chk.notes['simulated_behaviours'] = len(sim)
+    if not behs or not sim:
+        raise MachineryError('no behaviours emitted')
     return behs, sim
 
 
@@ -944,7 +951,7 @@ def run(chk):
     for beh, bad in zip(allb, res):
         chk.impl_traces += 1
         acts = [{k: v for k, v in s.items() if k != 'exp'} for s in beh]
-        nontriv = any(s.get('act') == 'recv' and (s['exp']['last']['calls'] or s['exp']['last']['released']) for s in beh)
+        nontriv = any(s.get('act') == 'recv' and (s['exp']['l']['calls'] or s['exp']['l']['released']) for s in beh)
         chk.case(json.dumps(acts, sort_keys=True), nontriv)
         if bad:
             st = beh[1 + bad['step']] if 0 <= bad['step'] < len(beh) - 1 else {'act': bad['action'].get('act')}
